@@ -183,6 +183,9 @@ func genConcPlan(prop string, seed uint64, tier string) *Plan {
 		if wide {
 			n = r.Range(20, 50)
 		}
+		if p.Extra["overflowLayout"] == 1 && n > len(p.Keys) {
+			n = len(p.Keys) // no key is written twice: every preloaded record stays live
+		}
 		for i := 0; i < n; i++ {
 			id++
 			op := Op{ID: id, Kind: "set", K: r.Intn(len(p.Keys))}
